@@ -1,5 +1,6 @@
 """C01 — Loading an FCS file returns exactly the events recorded in it."""
 import itertools
+import os
 
 import common
 import fcsgen
@@ -162,6 +163,15 @@ class Prop(common.PropertyCheck):
             self.bump('big-file')
             return None if impl['big'] is None else '%s (widths %s, %.1f MiB of DATA)' % (impl['big'], case['widths'], case['mib'])
         spec = case['spec']
+        if case.get('theorem_file'):
+            # the concrete file on which Properties/C01f.lean instantiates `loadFile_of_keywords` is the one the independent
+            # writer produces for this spec; the real loader's result on it is then checked like that of any other file
+            import re
+            src = open(os.path.join(common.ROOT, 'lean', 'Properties', 'C01f.lean')).read()
+            m = re.search(r'def %s : List Nat := \[(.*?)\]' % case['theorem_file'], src, re.S)
+            if not m or [int(x) for x in m.group(1).replace('\n', ' ').split(',')] != impl['file']:
+                return 'the file of theorem %s (Properties/C01f.lean) is not the file written for its spec' % case['theorem_file']
+            self.bump('theorem-file')
         mal = spec.get('malformed')
         if mal:
             self.bump('malformed:' + mal)
